@@ -33,6 +33,9 @@ ONE_KERNEL = [
     "10.1_operator_nofield.f90",                        # operator only
     "c23_single_readinc.f90",                           # gh_readinc, w0
     "c23_readinc_anyspace.f90",                         # gh_readinc, any_space
+    "c23_prolong_w3.f90",              # inter-grid: gh_inc w1, iterates over w3
+    "c23_op_w3_inc.f90",               # writes a w3 operator and gh_inc w1
+    "c23_prolong_w3_readinc.f90",      # inter-grid: gh_readinc w1, over w3
 ]
 TWO_KERNELS = [
     "14.15_halo_readinc.f90",                           # inc w0 ; readinc w0
@@ -103,7 +106,100 @@ contains
   end subroutine c23kern_readinc_anyspace_code
 end module c23kern_readinc_anyspace_mod
 ''',
+    # kernels whose ITERATION-SPACE argument is on a discontinuous space
+    # although they increment a field on a continuous space (the loop's
+    # field_space is not the space of the incremented argument): an inter-grid
+    # prolongation with the coarse field on w3, and a kernel that writes a
+    # w3-w3 LMA operator.  None exists in the repository's test files.
+    "c23_prolong_w3.f90": '''program c23_prolong_w3
+  use field_mod,                only: field_type
+  use c23kern_prolong_w3_mod,   only: c23kern_prolong_w3_type
+  implicit none
+  type(field_type) :: field1, field2
+  call invoke( c23kern_prolong_w3_type(field1, field2) )
+end program c23_prolong_w3
+''',
+    "c23kern_prolong_w3_mod.f90": '''module c23kern_prolong_w3_mod
+  use constants_mod
+  use kernel_mod
+  use argument_mod
+  use fs_continuity_mod
+  implicit none
+  type, extends(kernel_type) :: c23kern_prolong_w3_type
+     type(arg_type), dimension(2) :: meta_args = (/                    &
+          arg_type(GH_FIELD, GH_REAL, GH_INC,  W1, mesh_arg=GH_FINE),  &
+          arg_type(GH_FIELD, GH_REAL, GH_READ, W3, mesh_arg=GH_COARSE) &
+          /)
+     integer :: operates_on = CELL_COLUMN
+   contains
+     procedure, nopass :: code => c23kern_prolong_w3_code
+  end type c23kern_prolong_w3_type
+contains
+  subroutine c23kern_prolong_w3_code(nlayers, cell_map, ncell_f_per_c_x,  &
+                                     ncell_f_per_c_y, ncell_f, fine,      &
+                                     coarse, ndf_w1, undf_w1, dofmap_w1,  &
+                                     undf_w3, dofmap_w3)
+    implicit none
+    integer(kind=i_def), intent(in) :: nlayers
+    integer(kind=i_def), intent(in) :: ncell_f_per_c_x, ncell_f_per_c_y
+    integer(kind=i_def), dimension(ncell_f_per_c_x, ncell_f_per_c_y), &
+                         intent(in) :: cell_map
+    integer(kind=i_def), intent(in) :: ncell_f
+    integer(kind=i_def), intent(in) :: ndf_w1, undf_w1, undf_w3
+    integer(kind=i_def), dimension(ndf_w1, ncell_f), intent(in) :: dofmap_w1
+    integer(kind=i_def), dimension(1), intent(in) :: dofmap_w3
+    real(kind=r_def), dimension(undf_w1), intent(inout) :: fine
+    real(kind=r_def), dimension(undf_w3), intent(in) :: coarse
+  end subroutine c23kern_prolong_w3_code
+end module c23kern_prolong_w3_mod
+''',
+    "c23_op_w3_inc.f90": '''program c23_op_w3_inc
+  use field_mod,              only: field_type
+  use operator_mod,           only: operator_type
+  use c23kern_op_w3_inc_mod,  only: c23kern_op_w3_inc_type
+  implicit none
+  type(field_type)    :: f1
+  type(operator_type) :: op
+  call invoke( c23kern_op_w3_inc_type(op, f1) )
+end program c23_op_w3_inc
+''',
+    "c23kern_op_w3_inc_mod.f90": '''module c23kern_op_w3_inc_mod
+  use constants_mod
+  use kernel_mod
+  use argument_mod
+  use fs_continuity_mod
+  implicit none
+  type, extends(kernel_type) :: c23kern_op_w3_inc_type
+     type(arg_type), dimension(2) :: meta_args = (/              &
+          arg_type(GH_OPERATOR, GH_REAL, GH_WRITE, W3, W3),      &
+          arg_type(GH_FIELD,    GH_REAL, GH_INC,   W1)           &
+          /)
+     integer :: operates_on = CELL_COLUMN
+   contains
+     procedure, nopass :: code => c23kern_op_w3_inc_code
+  end type c23kern_op_w3_inc_type
+contains
+  subroutine c23kern_op_w3_inc_code(cell, nlayers, ncell_3d, op, fld,  &
+                                    ndf_w3, ndf_w1, undf_w1, map_w1)
+    implicit none
+    integer(kind=i_def), intent(in) :: cell, nlayers, ncell_3d
+    integer(kind=i_def), intent(in) :: ndf_w3, ndf_w1, undf_w1
+    integer(kind=i_def), intent(in), dimension(ndf_w1) :: map_w1
+    real(kind=r_def), intent(inout), dimension(ndf_w3,ndf_w3,ncell_3d) :: op
+    real(kind=r_def), intent(inout), dimension(undf_w1) :: fld
+  end subroutine c23kern_op_w3_inc_code
+end module c23kern_op_w3_inc_mod
+''',
 }
+
+
+SYNTHETIC["c23_prolong_w3_readinc.f90"] = SYNTHETIC["c23_prolong_w3.f90"] \
+    .replace("c23_prolong_w3", "c23_prolong_w3_readinc") \
+    .replace("c23kern_prolong_w3", "c23kern_prolong_w3_readinc")
+SYNTHETIC["c23kern_prolong_w3_readinc_mod.f90"] = \
+    SYNTHETIC["c23kern_prolong_w3_mod.f90"] \
+    .replace("c23kern_prolong_w3", "c23kern_prolong_w3_readinc") \
+    .replace("GH_INC, ", "GH_READINC,")
 
 
 def corpus(tier):
@@ -180,6 +276,11 @@ def kernel_summaries(schedule):
                       "args": [{"acc": a, "fs": f} for a, f in pairs]})
         detail.append({"name": k["name"],
                        "args": [[a["a"], a["fs"]] for a in k["args"]]})
+    # the space of each kernel's iteration-space argument (= the loop's space)
+    from psyclone.domain.lfric import LFRicLoop
+    for node, det in zip(kernels_of(schedule), detail):
+        loop = node.ancestor(LFRicLoop)
+        det["loop_space"] = loop.field_space.orig_name if loop else ""
     return names, kerns, detail
 
 
@@ -232,8 +333,9 @@ def apply_op(schedule, op):
     from psyclone.transformations import (
         Dynamo0p3ColourTrans, DynamoOMPParallelLoopTrans,
         Dynamo0p3OMPLoopTrans, OMPParallelTrans, ACCLoopTrans,
-        ACCParallelTrans, Dynamo0p3RedundantComputationTrans)
-    from psyclone.psyir.transformations import ACCKernelsTrans
+        ACCParallelTrans, Dynamo0p3RedundantComputationTrans,
+        OMPParallelLoopTrans)
+    from psyclone.psyir.transformations import ACCKernelsTrans, OMPLoopTrans
     tgt = resolve(schedule, op["tg"])
     if tgt is None:
         return "notarget"
@@ -244,6 +346,10 @@ def apply_op(schedule, op):
         DynamoOMPParallelLoopTrans().apply(tgt)
     elif name == "OMPLoop":
         Dynamo0p3OMPLoopTrans().apply(tgt)
+    elif name == "GenOMPParallelLoop":      # generic: own dependence analysis
+        OMPParallelLoopTrans().apply(tgt)
+    elif name == "GenOMPLoop":
+        OMPLoopTrans().apply(tgt)
     elif name == "ACCLoop":
         ACCLoopTrans().apply(tgt, {"independent": op["opt"] != "auto"})
     elif name == "RedundantComp":
